@@ -16,6 +16,7 @@
 """Service for handling deep config."""
 
 import os
+import sys
 from typing import Any, List, Dict, Tuple, Optional, Generator
 
 from deep import logging
@@ -170,8 +171,11 @@ class ConfigService:
         :param filename: the frame file name
         :return: True if add frame, else False
         """
-        in_app_include = self.IN_APP_INCLUDE
-        in_app_exclude = self.IN_APP_EXCLUDE
+        in_app_include = self.__as_path_list(self.IN_APP_INCLUDE)
+        in_app_exclude = self.__as_path_list(self.IN_APP_EXCLUDE)
+        # the interpreter's own files are never app frames, however the exclude list was supplied
+        if sys.exec_prefix not in in_app_exclude:
+            in_app_exclude.append(sys.exec_prefix)
 
         for path in in_app_exclude:
             if filename.startswith(path):
@@ -185,6 +189,15 @@ class ConfigService:
             return True, self.APP_ROOT
 
         return False, None
+
+    @staticmethod
+    def __as_path_list(value) -> List[str]:
+        # the documented form is a comma separated string, a list is accepted too; blank entries match nothing
+        if value is None:
+            return []
+        if isinstance(value, str):
+            value = value.split(',')
+        return [path for path in value if path]
 
     def _find_plugin(self, plugin_type) -> PLUGIN_TYPE:
         return next(self.__plugin_generator(plugin_type), None)
